@@ -213,6 +213,57 @@ Proof.
     rewrite Ztrunc_ceil by lra. apply Zceil_imp. rewrite minus_IZR. lra.
 Qed.
 
+Lemma rnd_nonneg0 x : 0 <= x -> 0 <= rnd x.
+Proof. intros H. rewrite <- (round_0 radix2 fexp ZnearestE). apply round_le; [apply fexp_valid|apply valid_rnd_N|exact H]. Qed.
+
+(** ---------- encoding an arbitrary in-range value (C11) ---------- *)
+Definition half_adj (q : R) : R := if Rle_bool 0 q then rnd (q + /2) else rnd (q - /2).
+Definition clampZ (lo hi t : Z) : Z := if (t <? lo)%Z then lo else if (hi <? t)%Z then hi else t.
+
+Lemma half_adj_mono p q : p <= q -> half_adj p <= half_adj q.
+Proof.
+  intros H. unfold half_adj. destruct (Rle_bool_spec 0 p) as [Hp0|Hp0]; destruct (Rle_bool_spec 0 q) as [Hq0|Hq0].
+  - apply round_le; [apply fexp_valid|apply valid_rnd_N|lra].
+  - lra.
+  - apply round_le; [apply fexp_valid|apply valid_rnd_N|lra].
+  - apply round_le; [apply fexp_valid|apply valid_rnd_N|lra].
+Qed.
+
+Lemma clampZ_mono lo hi a b : (lo <= hi)%Z -> (a <= b)%Z -> (clampZ lo hi a <= clampZ lo hi b)%Z.
+Proof. intros Hl H. unfold clampZ. destruct (Z.ltb_spec a lo); destruct (Z.ltb_spec b lo); destruct (Z.ltb_spec hi a); destruct (Z.ltb_spec hi b); lia. Qed.
+Lemma clampZ_id lo hi a : (lo <= a <= hi)%Z -> clampZ lo hi a = a.
+Proof. intros H. unfold clampZ. destruct (Z.ltb_spec a lo); [lia|]. destruct (Z.ltb_spec hi a); [lia|reflexivity]. Qed.
+
+Lemma to_int_sat_clamp lo hi (x : bf) : is_finite x = true -> (lo <= 0 <= hi)%Z ->
+  to_int_sat prec emax lo hi x = clampZ lo hi (Ztrunc (B2R x)).
+Proof.
+  intros Fx Hr. destruct x as [s|s| |s m e Hb]; try discriminate.
+  - cbn [to_int_sat B2R]. rewrite Ztrunc_IZR. rewrite clampZ_id by lia. reflexivity.
+  - unfold to_int_sat, clampZ. rewrite Btrunc_Ztrunc. reflexivity.
+Qed.
+
+(** |Ztrunc (half_adj q) - q| <= 1/2 + u (|q| + 1/2) + eta *)
+Lemma half_adj_near q : Rabs (IZR (Ztrunc (half_adj q)) - q) <= /2 + (u * (Rabs q + /2) + eta).
+Proof.
+  pose proof u_pos as Hu. pose proof eta_pos as Het. unfold half_adj.
+  destruct (Rle_bool_spec 0 q) as [Hq|Hq].
+  - set (y := q + /2). pose proof (rnd_err y) as He.
+    assert (Hy : Rabs y <= Rabs q + /2) by (unfold y; rewrite !Rabs_pos_eq by lra; lra).
+    assert (Hry : 0 <= rnd y) by (apply rnd_nonneg0; unfold y; lra).
+    rewrite Ztrunc_floor by exact Hry.
+    pose proof (Zfloor_lb (rnd y)) as F1. pose proof (Zfloor_ub (rnd y)) as F2.
+    apply Rabs_le_inv in He. assert (u * Rabs y <= u * (Rabs q + /2)) by (apply Rmult_le_compat_l; lra).
+    apply Rabs_le. unfold y in *. lra.
+  - set (y := q - /2). pose proof (rnd_err y) as He.
+    assert (Hy : Rabs y <= Rabs q + /2) by (unfold y; rewrite !Rabs_left by lra; lra).
+    assert (Hry : rnd y <= 0).
+    { rewrite <- (round_0 radix2 fexp ZnearestE). apply round_le; [apply fexp_valid|apply valid_rnd_N|unfold y; lra]. }
+    rewrite Ztrunc_ceil by exact Hry.
+    pose proof (Zceil_ub (rnd y)) as F1. pose proof (Zceil_lb (rnd y)) as F2.
+    apply Rabs_le_inv in He. assert (u * Rabs y <= u * (Rabs q + /2)) by (apply Rmult_le_compat_l; lra).
+    apply Rabs_le. unfold y in *. lra.
+Qed.
+
 (** ---------- decode then encode ---------- *)
 Definition biasR (bias : option bf) : R := match bias with Some b => B2R b | None => 0 end.
 Definition eE1 (N : Z) (Rr : R) : R := u * IZR N * Rr + eta.
@@ -220,6 +271,7 @@ Definition eE2 (N : Z) (Rr Bb : R) : R := u * (IZR N * Rr + eE1 N Rr + Bb) + eta
 Definition eE3 (N : Z) (Rr Bb : R) : R := u * (IZR N * Rr + eE1 N Rr + eE2 N Rr Bb) + eta.
 Definition eEtot (hasb : bool) (N : Z) (Rr Bb : R) : R :=
   if hasb then eE1 N Rr + eE2 N Rr Bb + eE3 N Rr Bb else eE1 N Rr.
+Definition eEdec (hasb : bool) (N : Z) (Rr Bb : R) : R := if hasb then eE1 N Rr + eE2 N Rr Bb else eE1 N Rr.
 Definition has_bias (bias : option bf) : bool := match bias with Some _ => true | None => false end.
 
 Section Row.
@@ -327,6 +379,31 @@ Section Row.
     - split; [exact D1f|]. eexists. split; [reflexivity|]. split; [exact D1f|]. rewrite D1v. exact D1e.
   Qed.
 
+  (** the decoded value is within Edec of n R + B, and (biased rows) not below the bias *)
+  Lemma dec_val : Rabs (B2R decf - (IZR n * Rr + Bb)) <= eEdec (has_bias bias) N Rr Bb /\ (has_bias bias = true -> Bb <= B2R decf).
+  Proof.
+    destruct d1_ok as [D1v [D1f D1e]]. pose proof NR_pos as HNR. pose proof absnR as HnR.
+    pose proof E1_pos. pose proof E2_pos. pose proof E3_pos. pose proof u_pos as Hu. pose proof eta_pos.
+    unfold fdec_core. revert b_fin n_sign b_pos Hc1 Hc2 H H0 H1. destruct bias as [b|]; cbn [has_bias biasR eEtot eEdec]; intros b_fin' n_sign' b_pos' Hc1' Hc2' H H0 H1.
+    - set (d1 := rnd (IZR n * Rr)) in *.
+      assert (Hn0 : 0 <= IZR n) by (apply IZR_le; exact n_sign').
+      assert (Hd1p : 0 <= d1) by (apply rnd_nonneg; apply Rmult_le_pos; lra).
+      assert (Hd1a : Rabs d1 <= IZR N * Rr + eE1 N Rr).
+      { replace d1 with (IZR n * Rr + (d1 - IZR n * Rr)) by ring. eapply Rle_trans; [apply Rabs_triang|]. lra. }
+      rewrite Rabs_pos_eq in Hd1a by exact Hd1p.
+      destruct (fadd_ok d1f b D1f b_fin') as [Sv Sf]; [rewrite D1v; fold d1; rewrite Rabs_pos_eq by lra; lra|].
+      rewrite D1v in Sv. fold d1 in Sv. rewrite Sv.
+      assert (Hde : Rabs (rnd (d1 + B2R b) - (d1 + B2R b)) <= eE2 N Rr (B2R b)).
+      { eapply Rle_trans; [apply rnd_err|]. unfold eE2. rewrite Rabs_pos_eq by lra.
+        assert (u * (d1 + B2R b) <= u * (IZR N * Rr + eE1 N Rr + B2R b)) by (apply Rmult_le_compat_l; lra). lra. }
+      split.
+      + replace (rnd (d1 + B2R b) - (IZR n * Rr + B2R b)) with ((rnd (d1 + B2R b) - (d1 + B2R b)) + (d1 - IZR n * Rr)) by ring.
+        eapply Rle_trans; [apply Rabs_triang|]. lra.
+      + intros _. rewrite <- (round_generic radix2 fexp ZnearestE (B2R b)) at 1 by apply B2R_format.
+        apply round_le; [apply fexp_valid|apply valid_rnd_N|lra].
+    - rewrite D1v. split; [rewrite Rplus_0_r; exact D1e|discriminate].
+  Qed.
+
   Variables (ck : ckind) (cbits : Z).
   Hypothesis n_carrier : (cmin ck cbits <= n <= cmax ck cbits)%Z.
 
@@ -355,6 +432,252 @@ Section Row.
       rewrite to_int_sat_ok; rewrite ?Av, ?(Tn Hq); [reflexivity|exact Af|exact n_carrier].
   Qed.
 End Row.
+
+(** ---------- any in-range input: what the encoder computes, monotonicity, nearest grid point ---------- *)
+Definition encR (Rr Bb x : R) : Z := Ztrunc (half_adj (rnd (rnd (x - Bb) / Rr))).
+(** rounding slack of the quotient, in resolution steps, for |x - B| <= T R *)
+Definition qA (T Rr : R) : R := u * T + eta / Rr.
+Definition qD (T Rr : R) : R := qA T Rr + u * (T + qA T Rr) + eta.
+Definition qe (T Rr : R) : R := u * (T + qD T Rr + /2) + eta.
+Definition slackq (T Rr : R) : R := qD T Rr + qe T Rr.
+
+Lemma encR_mono Rr Bb x y : 0 < Rr -> x <= y -> (encR Rr Bb x <= encR Rr Bb y)%Z.
+Proof.
+  intros HR H. unfold encR. apply Ztrunc_le. apply half_adj_mono.
+  apply round_le; [apply fexp_valid|apply valid_rnd_N|].
+  apply Rmult_le_compat_r; [left; apply Rinv_0_lt_compat; exact HR|].
+  apply round_le; [apply fexp_valid|apply valid_rnd_N|lra].
+Qed.
+
+Lemma u_le_1 : u <= 1.
+Proof. change 1 with (bpow radix2 0). apply bpow_le. pose proof prec_pos. lia. Qed.
+Lemma eta_le_1 : eta <= 1.
+Proof. change 1 with (bpow radix2 0). apply bpow_le. pose proof prec_pos. pose proof prec_emax. lia. Qed.
+
+Lemma encR_near Rr Bb T x : 0 < Rr -> 0 <= T -> Rabs (x - Bb) <= T * Rr ->
+  Rabs (IZR (encR Rr Bb x) - (x - Bb) / Rr) <= /2 + slackq T Rr /\
+  Rabs (rnd (x - Bb)) <= T * Rr + (u * (T * Rr) + eta) /\
+  Rabs (rnd (rnd (x - Bb) / Rr)) <= T + qD T Rr.
+Proof.
+  intros HR HT Hz. pose proof u_pos as Hu. pose proof eta_pos as Het.
+  set (z := x - Bb) in *. set (x1 := rnd z). set (q0 := x1 / Rr). set (q := rnd q0).
+  assert (Hi : 0 < / Rr) by (apply Rinv_0_lt_compat; exact HR).
+  assert (H1 : Rabs (x1 - z) <= u * (T * Rr) + eta).
+  { eapply Rle_trans; [apply rnd_err|]. assert (u * Rabs z <= u * (T * Rr)) by (apply Rmult_le_compat_l; lra). lra. }
+  assert (H1a : Rabs x1 <= T * Rr + (u * (T * Rr) + eta)) by (pose proof (rnd_abs_le z _ H1) as Hx; fold x1 in Hx; lra).
+  assert (H2 : Rabs (q0 - z / Rr) <= qA T Rr).
+  { unfold q0, qA. replace (x1 / Rr - z / Rr) with ((x1 - z) / Rr) by (field; lra).
+    unfold Rdiv. rewrite Rabs_mult, (Rabs_pos_eq (/ Rr)) by lra.
+    replace (u * T + eta * / Rr) with ((u * (T * Rr) + eta) * / Rr) by (field; lra).
+    apply Rmult_le_compat_r; lra. }
+  assert (Ht : Rabs (z / Rr) <= T).
+  { unfold Rdiv. rewrite Rabs_mult, (Rabs_pos_eq (/ Rr)) by lra. replace T with (T * Rr * / Rr) by (field; lra). apply Rmult_le_compat_r; lra. }
+  assert (HA0 : 0 <= qA T Rr) by (eapply Rle_trans; [apply Rabs_pos|exact H2]).
+  assert (H2a : Rabs q0 <= T + qA T Rr).
+  { replace q0 with (z / Rr + (q0 - z / Rr)) by ring. eapply Rle_trans; [apply Rabs_triang|]. lra. }
+  assert (H3 : Rabs (q - q0) <= u * (T + qA T Rr) + eta).
+  { eapply Rle_trans; [apply rnd_err|]. assert (u * Rabs q0 <= u * (T + qA T Rr)) by (apply Rmult_le_compat_l; lra). lra. }
+  assert (H3a : Rabs (q - z / Rr) <= qD T Rr).
+  { unfold qD. replace (q - z / Rr) with ((q - q0) + (q0 - z / Rr)) by ring. eapply Rle_trans; [apply Rabs_triang|]. lra. }
+  assert (H3b : Rabs q <= T + qD T Rr).
+  { replace q with (z / Rr + (q - z / Rr)) by ring. eapply Rle_trans; [apply Rabs_triang|]. lra. }
+  split; [|split; [exact H1a|exact H3b]].
+  unfold encR. fold z x1 q0 q.
+  pose proof (half_adj_near q) as H4.
+  replace (IZR (Ztrunc (half_adj q)) - z / Rr) with ((IZR (Ztrunc (half_adj q)) - q) + (q - z / Rr)) by ring.
+  eapply Rle_trans; [apply Rabs_triang|]. unfold slackq, qe.
+  assert (u * (Rabs q + /2) <= u * (T + qD T Rr + /2)) by (apply Rmult_le_compat_l; lra). lra.
+Qed.
+
+Section Enc.
+  Variable r : bf.
+  Variable bias : option bf.
+  Variable N : Z.
+  Notation Rr := (B2R r).
+  Notation Bb := (biasR bias).
+  Notation T := (IZR N + 1).
+  Hypothesis r_fin : is_finite r = true.
+  Hypothesis r_pos : 0 < Rr.
+  Hypothesis b_fin : match bias with Some b => is_finite b = true | None => True end.
+  Hypothesis N_pos : (0 <= N)%Z.
+  Hypothesis N_small : (4 * N + 8 <= 2 ^ prec)%Z.
+  Hypothesis Heta : eta <= Rr / 4.
+  Hypothesis Hov : T * Rr <= bpow radix2 (emax - 1).
+  Hypothesis HqD : qD T Rr <= /4.
+
+  (** fenc_core on a finite in-range input is the real-number pipeline, clamped to the carrier *)
+  Lemma enc_real (x : bf) ck cbits : is_finite x = true -> (has_bias bias = true -> Bb <= B2R x) ->
+    Rabs (B2R x - Bb) <= T * Rr -> (cmin ck cbits <= 0 <= cmax ck cbits)%Z ->
+    fenc_core prec emax Hp Hpe (Some r) bias true ck cbits x = Ok (clampZ (cmin ck cbits) (cmax ck cbits) (encR Rr Bb (B2R x))).
+  Proof.
+    intros Fx Hbx Hz Hc. pose proof u_pos as Hu. pose proof eta_pos as Het. pose proof u_le_1. pose proof eta_le_1.
+    assert (HT : 0 <= T) by (assert (0 <= IZR N) by (apply IZR_le; exact N_pos); lra).
+    destruct (encR_near Rr Bb T (B2R x) r_pos HT Hz) as [_ [Hx1 Hq]].
+    assert (HTR : 0 <= T * Rr) by (apply Rmult_le_pos; lra).
+    (* the bias step *)
+    assert (S1 : exists x1f, match bias with
+                | None => Ok x
+                | Some b => if fge prec emax x b then Ok (fsub prec emax Hp Hpe x b) else Err OutOfRange
+                end = Ok x1f /\ is_finite x1f = true /\ B2R x1f = rnd (B2R x - Bb)).
+    { revert b_fin Hbx Hz. destruct bias as [b|]; cbn [biasR has_bias]; intros b_fin' Hbx' Hz'.
+      - rewrite (fge_correct _ b Fx b_fin'). destruct (Rle_bool_spec (B2R b) (B2R x)) as [_|Hlt]; [|specialize (Hbx' eq_refl); lra].
+        destruct (fsub_ok x b Fx b_fin') as [Tv Tf]; [lra|]. eexists. split; [reflexivity|]. split; assumption.
+      - exists x. split; [reflexivity|]. split; [exact Fx|]. rewrite Rminus_0_r. symmetry. apply round_generic; [apply valid_rnd_N|apply generic_format_B2R]. }
+    destruct S1 as [x1f [E1' [X1f X1v]]]. unfold fenc_core. rewrite E1'. cbn [bind].
+    assert (HNb : IZR (4 * N + 8) <= bpow radix2 (emax - 1)).
+    { apply Rle_trans with (IZR (2 ^ prec)); [apply IZR_le; exact N_small|]. apply pow2_emax_bound. pose proof prec_pos. lia. }
+    rewrite plus_IZR, mult_IZR in HNb.
+    assert (Hi : 0 < / Rr) by (apply Rinv_0_lt_compat; exact r_pos).
+    assert (Hq0 : Rabs (B2R x1f / Rr) <= 2 * T + /4).
+    { rewrite X1v. unfold Rdiv. rewrite Rabs_mult, (Rabs_pos_eq (/ Rr)) by lra.
+      apply Rle_trans with ((T * Rr + (u * (T * Rr) + eta)) * / Rr); [apply Rmult_le_compat_r; lra|].
+      replace ((T * Rr + (u * (T * Rr) + eta)) * / Rr) with (T + u * T + eta * / Rr) by (field; lra).
+      assert (u * T <= 1 * T) by (apply Rmult_le_compat_r; lra).
+      assert (eta * / Rr <= /4). { apply Rmult_le_reg_r with Rr; [exact r_pos|]. rewrite Rmult_assoc, Rinv_l by lra. lra. }
+      lra. }
+    destruct (fdiv_ok x1f r X1f (Rgt_not_eq _ _ r_pos)) as [Qv Qf]; [lra|]. rewrite X1v in Qv.
+    set (q := rnd (rnd (B2R x - Bb) / Rr)) in *.
+    destruct (fhalf_correct) as [Hv Hf]. destruct (fmhalf_correct) as [Mv Mf].
+    assert (Zf : is_finite (fzero prec emax) = true) by reflexivity.
+    rewrite (fge_correct _ _ Qf Zf), Qv. change (B2R (fzero prec emax)) with 0.
+    apply Rabs_le_inv in Hq.
+    unfold encR, half_adj. fold q.
+    destruct (Rle_bool_spec 0 q) as [Hq'|Hq'].
+    - destruct (fadd_ok _ _ Qf Hf) as [Av Af]; [rewrite Qv, Hv; apply Rabs_le; lra|].
+      rewrite Qv, Hv in Av. rewrite to_int_sat_clamp by assumption. rewrite Av. reflexivity.
+    - destruct (fadd_ok _ _ Qf Mf) as [Av Af]; [rewrite Qv, Mv; apply Rabs_le; lra|].
+      rewrite Qv, Mv in Av. replace (q + - / 2) with (q - /2) in Av by ring.
+      rewrite to_int_sat_clamp by assumption. rewrite Av. reflexivity.
+  Qed.
+End Enc.
+
+Section Near.
+  Variable r : bf.
+  Variable bias : option bf.
+  Variable N : Z.
+  Notation Rr := (B2R r).
+  Notation Bb := (biasR bias).
+  Notation T := (IZR N + 1).
+  Notation Etot := (eEtot (has_bias bias) N Rr Bb).
+  Notation Edec := (eEdec (has_bias bias) N Rr Bb).
+  Hypothesis r_fin : is_finite r = true.
+  Hypothesis r_pos : 0 < Rr.
+  Hypothesis b_fin : match bias with Some b => is_finite b = true | None => True end.
+  Hypothesis b_pos : 0 <= Bb.
+  Hypothesis N_pos : (0 <= N)%Z.
+  Hypothesis N_small : (4 * N + 8 <= 2 ^ prec)%Z.
+  Hypothesis Hc1 : Etot * (1 + u) + u * IZR N * Rr + eta * Rr <= Rr / 4.
+  Hypothesis Hc2 : IZR N * Rr + Etot + Bb <= bpow radix2 (emax - 1).
+  Hypothesis Hov : T * Rr <= bpow radix2 (emax - 1).
+  Hypothesis HqD : qD T Rr <= /4.
+  Hypothesis Hslack : Rr * slackq T Rr + Edec <= Rr / 4.
+
+  Notation decf := (fdec_core prec emax Hp Hpe (Some r) bias).
+
+  Lemma N_small3 : (4 * N + 3 < 2 ^ prec)%Z. Proof. lia. Qed.
+
+  Lemma Edec_le : 0 <= Edec /\ Edec <= Etot /\ Etot <= Rr / 4 /\ eta <= Rr / 4.
+  Proof.
+    pose proof (E1_pos r N r_pos N_pos) as H1. pose proof (E2_pos r bias N r_pos b_pos N_pos) as H2. pose proof (E3_pos r bias N r_pos b_pos N_pos) as H3.
+    pose proof u_pos. pose proof eta_pos. pose proof (NR_pos r N r_pos N_pos).
+    assert (0 <= u * IZR N * Rr) by (rewrite Rmult_assoc; apply Rmult_le_pos; lra).
+    assert (0 <= eta * Rr) by (apply Rmult_le_pos; lra).
+    assert (HE : 0 <= Etot) by (unfold eEtot; destruct (has_bias bias); lra).
+    assert (0 <= Etot * u) by (apply Rmult_le_pos; lra).
+    assert (eta <= eE1 N Rr) by (unfold eE1; lra).
+    unfold eEdec, eEtot in *. destruct (has_bias bias); repeat split; lra.
+  Qed.
+
+  (** in-range facts about a decoded grid point *)
+  Lemma grid_point k : (Z.abs k <= N)%Z -> match bias with Some _ => (0 <= k)%Z | None => True end ->
+    is_finite (decf k) = true /\ (has_bias bias = true -> Bb <= B2R (decf k)) /\
+    Rabs (B2R (decf k) - (IZR k * Rr + Bb)) <= Edec /\ Rabs (B2R (decf k) - Bb) <= T * Rr /\
+    encR Rr Bb (B2R (decf k)) = k.
+  Proof.
+    intros Hk Hs. pose proof Edec_le as [E0 [E1' [E2' _]]].
+    destruct (dec_ok r bias N r_fin r_pos b_fin b_pos N_pos N_small3 Hc1 Hc2 k Hk Hs) as [Df _].
+    destruct (dec_val r bias N r_fin r_pos b_fin b_pos N_pos N_small3 Hc1 Hc2 k Hk Hs) as [Dv Db].
+    assert (HkN : Rabs (IZR k) <= IZR N) by (rewrite <- abs_IZR; apply IZR_le; exact Hk).
+    assert (HkR : Rabs (IZR k * Rr) <= IZR N * Rr) by (rewrite Rabs_mult, (Rabs_pos_eq Rr) by lra; apply Rmult_le_compat_r; lra).
+    assert (Hin : Rabs (B2R (decf k) - Bb) <= T * Rr).
+    { replace (B2R (decf k) - Bb) with ((B2R (decf k) - (IZR k * Rr + Bb)) + IZR k * Rr) by ring.
+      eapply Rle_trans; [apply Rabs_triang|]. lra. }
+    split; [exact Df|]. split; [exact Db|]. split; [exact Dv|]. split; [exact Hin|].
+    assert (HT : 0 <= T) by (assert (0 <= IZR N) by (apply IZR_le; exact N_pos); lra).
+    destruct (encR_near Rr Bb T (B2R (decf k)) r_pos HT Hin) as [Hn _].
+    (* |encR - k| <= 1/2 + slackq + Edec / R < 1 *)
+    assert (Hq : Rabs ((B2R (decf k) - Bb) / Rr - IZR k) <= Edec / Rr).
+    { replace ((B2R (decf k) - Bb) / Rr - IZR k) with ((B2R (decf k) - (IZR k * Rr + Bb)) / Rr) by (field; lra).
+      unfold Rdiv. assert (0 < / Rr) by (apply Rinv_0_lt_compat; exact r_pos). rewrite Rabs_mult, (Rabs_pos_eq (/ Rr)) by lra.
+      apply Rmult_le_compat_r; lra. }
+    assert (Hs4 : slackq T Rr + Edec / Rr <= /4).
+    { apply Rmult_le_reg_r with Rr; [exact r_pos|]. replace ((slackq T Rr + Edec / Rr) * Rr) with (Rr * slackq T Rr + Edec) by (field; lra). lra. }
+    assert (Hd : Rabs (IZR (encR Rr Bb (B2R (decf k))) - IZR k) < 1).
+    { replace (IZR (encR Rr Bb (B2R (decf k))) - IZR k) with
+        ((IZR (encR Rr Bb (B2R (decf k))) - (B2R (decf k) - Bb) / Rr) + ((B2R (decf k) - Bb) / Rr - IZR k)) by ring.
+      eapply Rle_lt_trans; [apply Rabs_triang|]. lra. }
+    rewrite <- minus_IZR in Hd. apply Rabs_lt_inv in Hd. destruct Hd as [Hd1 Hd2].
+    change (- (1)) with (IZR (-1)) in Hd1. change 1 with (IZR 1) in Hd2. apply lt_IZR in Hd1, Hd2. lia.
+  Qed.
+
+  Variables (ck : ckind) (cbits : Z).
+
+  (** any finite input between the lowest and the highest grid point: the result is the real-number
+      pipeline, unclamped, and stays between the two ends (no wrap-around, no saturation) *)
+  Theorem enc_in_range (x : bf) lo hi : is_finite x = true -> (Z.abs lo <= N)%Z -> (Z.abs hi <= N)%Z ->
+    match bias with Some _ => (0 <= lo)%Z /\ (0 <= hi)%Z | None => True end ->
+    (cmin ck cbits <= lo)%Z -> (hi <= cmax ck cbits)%Z -> (cmin ck cbits <= 0 <= cmax ck cbits)%Z ->
+    B2R (decf lo) <= B2R x <= B2R (decf hi) ->
+    fenc_core prec emax Hp Hpe (Some r) bias true ck cbits x = Ok (encR Rr Bb (B2R x)) /\
+    (lo <= encR Rr Bb (B2R x) <= hi)%Z.
+  Proof.
+    intros Fx Hk Hk1 Hs Hlo Hhi Hc0 [Hx1 Hx2]. pose proof Edec_le as [E0 [E1' [E2' Heta]]].
+    assert (Hs0 : match bias with Some _ => (0 <= lo)%Z | None => True end) by (destruct bias; [tauto|exact I]).
+    assert (Hs1 : match bias with Some _ => (0 <= hi)%Z | None => True end) by (destruct bias; [tauto|exact I]).
+    destruct (grid_point lo Hk Hs0) as [Fk [Bk [Vk [Ik Ek]]]].
+    destruct (grid_point hi Hk1 Hs1) as [Fk1 [Bk1 [Vk1 [Ik1 Ek1]]]].
+    assert (Hin : Rabs (B2R x - Bb) <= T * Rr).
+    { apply Rabs_le_inv in Ik. apply Rabs_le_inv in Ik1. apply Rabs_le. lra. }
+    assert (Hbx : has_bias bias = true -> Bb <= B2R x) by (intros Hb; specialize (Bk Hb); lra).
+    rewrite (enc_real r bias N); try assumption.
+    pose proof (encR_mono Rr Bb _ _ r_pos Hx1) as M1. pose proof (encR_mono Rr Bb _ _ r_pos Hx2) as M2.
+    rewrite Ek in M1. rewrite Ek1 in M2.
+    rewrite clampZ_id by lia. split; [reflexivity|lia].
+  Qed.
+
+  (** an input between two adjacent grid points goes to one of them, within half a step plus the slack *)
+  Theorem enc_between (x : bf) k : is_finite x = true -> (Z.abs k <= N)%Z -> (Z.abs (k + 1) <= N)%Z ->
+    match bias with Some _ => (0 <= k)%Z | None => True end ->
+    (cmin ck cbits <= k)%Z -> (k + 1 <= cmax ck cbits)%Z -> (cmin ck cbits <= 0 <= cmax ck cbits)%Z ->
+    B2R (decf k) <= B2R x <= B2R (decf (k + 1)) ->
+    exists n, fenc_core prec emax Hp Hpe (Some r) bias true ck cbits x = Ok n /\ (n = k \/ n = k + 1)%Z /\
+              Rabs (B2R x - B2R (decf n)) <= Rr / 2 + (Rr * slackq T Rr + Edec).
+  Proof.
+    intros Fx Hk Hk1 Hs Hlo Hhi Hc0 [Hx1 Hx2]. pose proof Edec_le as [E0 [E1' [E2' Heta]]].
+    assert (Hs1 : match bias with Some _ => (0 <= k + 1)%Z | None => True end) by (destruct bias; [lia|exact I]).
+    destruct (grid_point k Hk Hs) as [Fk [Bk [Vk [Ik Ek]]]].
+    destruct (grid_point (k + 1) Hk1 Hs1) as [Fk1 [Bk1 [Vk1 [Ik1 Ek1]]]].
+    assert (Hin : Rabs (B2R x - Bb) <= T * Rr).
+    { apply Rabs_le_inv in Ik. apply Rabs_le_inv in Ik1. apply Rabs_le. lra. }
+    assert (Hbx : has_bias bias = true -> Bb <= B2R x) by (intros Hb; specialize (Bk Hb); lra).
+    rewrite (enc_real r bias N); try assumption.
+    pose proof (encR_mono Rr Bb _ _ r_pos Hx1) as M1. pose proof (encR_mono Rr Bb _ _ r_pos Hx2) as M2.
+    rewrite Ek in M1. rewrite Ek1 in M2.
+    set (n := encR Rr Bb (B2R x)) in *.
+    rewrite clampZ_id by lia. exists n. split; [reflexivity|]. split; [lia|].
+    assert (HT : 0 <= T) by (assert (0 <= IZR N) by (apply IZR_le; exact N_pos); lra).
+    destruct (encR_near Rr Bb T (B2R x) r_pos HT Hin) as [Hn _]. fold n in Hn.
+    assert (HnN : (Z.abs n <= N)%Z) by lia.
+    assert (Hsn : match bias with Some _ => (0 <= n)%Z | None => True end) by (destruct bias; [lia|exact I]).
+    destruct (grid_point n HnN Hsn) as [_ [_ [Vn _]]].
+    replace (B2R x - B2R (decf n)) with (Rr * ((B2R x - Bb) / Rr - IZR n) + ((IZR n * Rr + Bb) - B2R (decf n))) by (field; lra).
+    eapply Rle_trans; [apply Rabs_triang|].
+    rewrite Rabs_mult, (Rabs_pos_eq Rr) by lra. rewrite (Rabs_minus_sym (IZR n * Rr + Bb)).
+    rewrite Rabs_minus_sym in Hn.
+    assert (Rr * Rabs ((B2R x - Bb) / Rr - IZR n) <= Rr * (/2 + slackq T Rr)) by (apply Rmult_le_compat_l; lra).
+    lra.
+  Qed.
+End Near.
 End FP.
 
 (** ---------- the side conditions as a boolean on exact rationals ---------- *)
@@ -452,5 +775,126 @@ Proof.
     replace (Q2R 1) with 1 in C1 by (unfold Q2R; cbn; lra). replace (Q2R 4) with 4 in C1 by (unfold Q2R; cbn; lra).
     exact C1.
   - rewrite !Q2R_plus, Q2R_mult, Q2R_qEtot, Q2R_inject_Z, (biasQ_R bias Bf'), (Q2R_B2Q r Rf), Q2R_qpow2 in C2. exact C2.
+Qed.
+
+(** ---------- nearest grid point (C11): side conditions on rationals ---------- *)
+Definition qqA (T r : Q) : Q := qu * T + qeta / r.
+Definition qqD (T r : Q) : Q := qqA T r + qu * (T + qqA T r) + qeta.
+Definition qqe (T r : Q) : Q := qu * (T + qqD T r + (1 # 2)) + qeta.
+Definition qslackq (T r : Q) : Q := qqD T r + qqe T r.
+Definition qEdec (hasb : bool) (N : Z) (r b : Q) : Q := if hasb then qE1 N r + qE2 N r b else qE1 N r.
+
+Lemma Q2R_qu : Q2R qu = bpow radix2 (- prec). Proof. apply Q2R_qpow2. Qed.
+Lemma Q2R_qeta : Q2R qeta = bpow radix2 (3 - emax - prec - 1). Proof. apply Q2R_qpow2. Qed.
+Lemma Q2R_half : Q2R (1 # 2) = / 2. Proof. unfold Q2R. cbn. lra. Qed.
+
+Lemma Q2R_qqA T r : ~ r == 0 -> Q2R (qqA T r) = qA prec emax (Q2R T) (Q2R r).
+Proof. intros Hr. unfold qqA, qA, Qdiv. rewrite Q2R_plus, !Q2R_mult, Q2R_inv, Q2R_qu, Q2R_qeta by exact Hr. reflexivity. Qed.
+Lemma Q2R_qqD T r : ~ r == 0 -> Q2R (qqD T r) = qD prec emax (Q2R T) (Q2R r).
+Proof. intros Hr. unfold qqD, qD. rewrite !Q2R_plus, Q2R_mult, Q2R_plus, Q2R_qqA, Q2R_qu, Q2R_qeta by exact Hr. reflexivity. Qed.
+Lemma Q2R_qqe T r : ~ r == 0 -> Q2R (qqe T r) = qe prec emax (Q2R T) (Q2R r).
+Proof. intros Hr. unfold qqe, qe. rewrite Q2R_plus, Q2R_mult, !Q2R_plus, Q2R_qqD, Q2R_qu, Q2R_qeta, Q2R_half by exact Hr. reflexivity. Qed.
+Lemma Q2R_qslackq T r : ~ r == 0 -> Q2R (qslackq T r) = slackq prec emax (Q2R T) (Q2R r).
+Proof. intros Hr. unfold qslackq, slackq. rewrite Q2R_plus, Q2R_qqD, Q2R_qqe by exact Hr. reflexivity. Qed.
+Lemma Q2R_qEdec h N r b : Q2R (qEdec h N r b) = eEdec prec emax h N (Q2R r) (Q2R b).
+Proof. unfold qEdec, eEdec. destruct h; rewrite ?Q2R_plus, ?Q2R_qE1, ?Q2R_qE2; reflexivity. Qed.
+
+Definition fnear_ok (r : bf) (bias : option bf) (N : Z) : bool :=
+  let rq := B2Q r in let bq := biasQ bias in let h := has_bias prec emax bias in
+  let T := (inject_Z N + 1)%Q in
+  frow_ok r bias N && (4 * N + 8 <=? 2 ^ prec)%Z
+  && Qle_bool (T * rq) (qpow2 (emax - 1))
+  && Qle_bool (qqD T rq) (1 # 4)
+  && Qle_bool (rq * qslackq T rq + qEdec h N rq bq) (rq / 4).
+
+(** the slack of the row: Q2R of this rational is what [fnear] adds to half a resolution step *)
+Definition row_slack (r : bf) (bias : option bf) (N : Z) : Q :=
+  B2Q r * qslackq (inject_Z N + 1) (B2Q r) + qEdec (has_bias prec emax bias) N (B2Q r) (biasQ bias).
+
+Lemma fnear_hyps r bias N : fnear_ok r bias N = true ->
+  (4 <= prec)%Z /\ is_finite r = true /\ 0 < B2R r /\ match bias with Some b => is_finite b = true | None => True end /\
+  0 <= biasR prec emax bias /\ (0 <= N)%Z /\ (4 * N + 8 <= 2 ^ prec)%Z /\
+  eEtot prec emax (has_bias prec emax bias) N (B2R r) (biasR prec emax bias) * (1 + bpow radix2 (- prec)) + bpow radix2 (- prec) * IZR N * B2R r + bpow radix2 (3 - emax - prec - 1) * B2R r <= B2R r / 4 /\
+  IZR N * B2R r + eEtot prec emax (has_bias prec emax bias) N (B2R r) (biasR prec emax bias) + biasR prec emax bias <= bpow radix2 (emax - 1) /\
+  (IZR N + 1) * B2R r <= bpow radix2 (emax - 1) /\
+  qD prec emax (IZR N + 1) (B2R r) <= / 4 /\
+  Q2R (row_slack r bias N) = B2R r * slackq prec emax (IZR N + 1) (B2R r) + eEdec prec emax (has_bias prec emax bias) N (B2R r) (biasR prec emax bias) /\
+  B2R r * slackq prec emax (IZR N + 1) (B2R r) + eEdec prec emax (has_bias prec emax bias) N (B2R r) (biasR prec emax bias) <= B2R r / 4.
+Proof.
+  unfold fnear_ok. intros H. repeat (apply andb_true_iff in H; destruct H as [H ?]).
+  rename H into Hrow.
+  match goal with X : (4 * N + 8 <=? 2 ^ prec)%Z = true |- _ => rename X into N8; apply Z.leb_le in N8 end.
+  match goal with X : Qle_bool _ (qpow2 (emax - 1)) = true |- _ => rename X into Cov; apply Qle_bool_R in Cov end.
+  match goal with X : Qle_bool _ (1 # 4) = true |- _ => rename X into CD; apply Qle_bool_R in CD end.
+  match goal with X : Qle_bool _ (B2Q r / 4) = true |- _ => rename X into Csl; apply Qle_bool_R in Csl end.
+  pose proof Hrow as Hrow'. unfold frow_ok in Hrow'. repeat (apply andb_true_iff in Hrow'; destruct Hrow' as [Hrow' ?]).
+  rename Hrow' into Hprec. apply Z.leb_le in Hprec.
+  match goal with X : is_finite r = true |- _ => rename X into Rf end.
+  match goal with X : negb (Qle_bool (B2Q r) 0) = true |- _ => rename X into Rp end.
+  match goal with X : match bias with Some b => is_finite b | None => true end = true |- _ => rename X into Bf end.
+  match goal with X : Qle_bool 0 (biasQ bias) = true |- _ => rename X into Bp end.
+  match goal with X : (0 <=? N)%Z = true |- _ => rename X into N0; apply Z.leb_le in N0 end.
+  match goal with X : Qle_bool _ (B2Q r / 4) = true |- _ => rename X into C1; apply Qle_bool_R in C1 end.
+  match goal with X : Qle_bool _ (qpow2 (emax - 1)) = true |- _ => rename X into C2; apply Qle_bool_R in C2 end.
+  assert (Bf' : match bias with Some b => is_finite b = true | None => True end) by (destruct bias; [exact Bf|exact I]).
+  assert (Rq0 : ~ B2Q r == 0).
+  { intros E. destruct (Qle_bool (B2Q r) 0) eqn:E'; [discriminate|]. assert (X : Qle_bool (B2Q r) 0 = true) by (apply Qle_bool_iff; rewrite E; apply Qle_refl). rewrite X in E'. discriminate. }
+  assert (Rp' : 0 < B2R r).
+  { rewrite <- (Q2R_B2Q r Rf). destruct (Qle_bool (B2Q r) 0) eqn:E; [discriminate|].
+    destruct (Qlt_le_dec 0 (B2Q r)) as [Hl|Hl]; [replace 0 with (Q2R 0) by (unfold Q2R; cbn; lra); apply Qlt_Rlt; exact Hl|].
+    apply Qle_bool_iff in Hl. rewrite Hl in E. discriminate. }
+  assert (Bp' : 0 <= biasR prec emax bias).
+  { rewrite <- (biasQ_R bias Bf'). replace 0 with (Q2R 0) by (unfold Q2R; cbn; lra). apply Qle_bool_R. exact Bp. }
+  assert (Q1 : Q2R 1 = 1) by (unfold Q2R; cbn; lra). assert (Q4 : Q2R 4 = 4) by (unfold Q2R; cbn; lra).
+  assert (QT : Q2R (inject_Z N + 1) = IZR N + 1) by (rewrite Q2R_plus, Q2R_inject_Z, Q1; reflexivity).
+  assert (Hc1 : eEtot prec emax (has_bias prec emax bias) N (B2R r) (biasR prec emax bias) * (1 + bpow radix2 (- prec)) + bpow radix2 (- prec) * IZR N * B2R r + bpow radix2 (3 - emax - prec - 1) * B2R r <= B2R r / 4).
+  { rewrite !Q2R_plus, !Q2R_mult, Q2R_plus, Q2R_qEtot, Q2R_inject_Z, (biasQ_R bias Bf'), (Q2R_B2Q r Rf) in C1.
+    unfold qu, qeta in C1. rewrite !Q2R_qpow2 in C1.
+    unfold Qdiv in C1. rewrite Q2R_mult, Q2R_inv, (Q2R_B2Q r Rf) in C1 by (intros X; discriminate X).
+    rewrite Q1, Q4 in C1. exact C1. }
+  assert (Hc2 : IZR N * B2R r + eEtot prec emax (has_bias prec emax bias) N (B2R r) (biasR prec emax bias) + biasR prec emax bias <= bpow radix2 (emax - 1)).
+  { rewrite !Q2R_plus, Q2R_mult, Q2R_qEtot, Q2R_inject_Z, (biasQ_R bias Bf'), (Q2R_B2Q r Rf), Q2R_qpow2 in C2. exact C2. }
+  assert (Hov : (IZR N + 1) * B2R r <= bpow radix2 (emax - 1)).
+  { rewrite Q2R_mult, QT, (Q2R_B2Q r Rf), Q2R_qpow2 in Cov. exact Cov. }
+  assert (HqD : qD prec emax (IZR N + 1) (B2R r) <= / 4).
+  { rewrite (Q2R_qqD _ _ Rq0), QT, (Q2R_B2Q r Rf) in CD. replace (Q2R (1 # 4)) with (/4) in CD by (unfold Q2R; cbn; lra). exact CD. }
+  assert (Hsl : Q2R (row_slack r bias N) = B2R r * slackq prec emax (IZR N + 1) (B2R r) + eEdec prec emax (has_bias prec emax bias) N (B2R r) (biasR prec emax bias)).
+  { unfold row_slack. rewrite Q2R_plus, Q2R_mult, (Q2R_qslackq _ _ Rq0), Q2R_qEdec, QT, (Q2R_B2Q r Rf), (biasQ_R bias Bf'). reflexivity. }
+  assert (Hslack : B2R r * slackq prec emax (IZR N + 1) (B2R r) + eEdec prec emax (has_bias prec emax bias) N (B2R r) (biasR prec emax bias) <= B2R r / 4).
+  { rewrite <- Hsl. unfold row_slack. unfold Qdiv in Csl. rewrite (Q2R_mult (B2Q r) (/ 4)), Q2R_inv, (Q2R_B2Q r Rf), Q4 in Csl by (intros X; discriminate X). exact Csl. }
+  repeat (split; [assumption|]). assumption.
+Qed.
+
+Theorem fnear r bias N : fnear_ok r bias N = true ->
+  forall (x : bf) k ck cbits, is_finite x = true -> (Z.abs k <= N)%Z -> (Z.abs (k + 1) <= N)%Z ->
+    match bias with Some _ => (0 <= k)%Z | None => True end ->
+    (cmin ck cbits <= k)%Z -> (k + 1 <= cmax ck cbits)%Z -> (cmin ck cbits <= 0 <= cmax ck cbits)%Z ->
+    B2R (fdec_core prec emax Hp Hpe (Some r) bias k) <= B2R x <= B2R (fdec_core prec emax Hp Hpe (Some r) bias (k + 1)) ->
+    exists n, fenc_core prec emax Hp Hpe (Some r) bias true ck cbits x = Ok n /\ (n = k \/ n = k + 1)%Z /\
+              Rabs (B2R x - B2R (fdec_core prec emax Hp Hpe (Some r) bias n)) <= B2R r / 2 + Q2R (row_slack r bias N) /\
+              Q2R (row_slack r bias N) <= B2R r / 4.
+Proof.
+  intros H. destruct (fnear_hyps r bias N H) as [Hprec [Rf [Rp' [Bf' [Bp' [N0 [N8 [Hc1 [Hc2 [Hov [HqD [Hsl Hslack]]]]]]]]]]]].
+  intros x k ck cbits Fx Hk Hk1 Hs Hlo Hhi Hc0 Hx.
+  destruct (enc_between prec emax Hp Hpe Hprec r bias N Rf Rp' Bf' Bp' N0 N8 Hc1 Hc2 Hov HqD Hslack ck cbits x k Fx Hk Hk1 Hs Hlo Hhi Hc0 Hx) as [n [E [Hn Hd]]].
+  exists n. split; [exact E|]. split; [exact Hn|]. rewrite Hsl. split; [exact Hd|exact Hslack].
+Qed.
+
+(** monotone, and never outside the two ends of the range *)
+Theorem fnear_mono r bias N : fnear_ok r bias N = true ->
+  forall (x y : bf) lo hi ck cbits, is_finite x = true -> is_finite y = true -> (Z.abs lo <= N)%Z -> (Z.abs hi <= N)%Z ->
+    match bias with Some _ => (0 <= lo)%Z /\ (0 <= hi)%Z | None => True end ->
+    (cmin ck cbits <= lo)%Z -> (hi <= cmax ck cbits)%Z -> (cmin ck cbits <= 0 <= cmax ck cbits)%Z ->
+    B2R (fdec_core prec emax Hp Hpe (Some r) bias lo) <= B2R x -> B2R x <= B2R y ->
+    B2R y <= B2R (fdec_core prec emax Hp Hpe (Some r) bias hi) ->
+    exists nx ny, fenc_core prec emax Hp Hpe (Some r) bias true ck cbits x = Ok nx /\
+                  fenc_core prec emax Hp Hpe (Some r) bias true ck cbits y = Ok ny /\ (lo <= nx <= ny)%Z /\ (ny <= hi)%Z.
+Proof.
+  intros H. destruct (fnear_hyps r bias N H) as [Hprec [Rf [Rp' [Bf' [Bp' [N0 [N8 [Hc1 [Hc2 [Hov [HqD [Hsl Hslack]]]]]]]]]]]].
+  intros x y lo hi ck cbits Fx Fy Hlo Hhi Hs Hcl Hch Hc0 H1 H2 H3.
+  destruct (enc_in_range prec emax Hp Hpe Hprec r bias N Rf Rp' Bf' Bp' N0 N8 Hc1 Hc2 Hov HqD Hslack ck cbits x lo hi Fx Hlo Hhi Hs Hcl Hch Hc0 ltac:(lra)) as [Ex [Lx Ux]].
+  destruct (enc_in_range prec emax Hp Hpe Hprec r bias N Rf Rp' Bf' Bp' N0 N8 Hc1 Hc2 Hov HqD Hslack ck cbits y lo hi Fy Hlo Hhi Hs Hcl Hch Hc0 ltac:(lra)) as [Ey [Ly Uy]].
+  eexists. eexists. split; [exact Ex|]. split; [exact Ey|].
+  pose proof (encR_mono prec emax Hp (B2R r) (biasR prec emax bias) _ _ Rp' H2). lia.
 Qed.
 End QB.
